@@ -671,6 +671,14 @@ func drawRestStep(t *rapid.T) restStep {
 	s.Dig = rapid.SampledFrom(digitSpellings).Draw(t, "dig")
 	s.HasAlg = rapid.Bool().Draw(t, "hasAlg")
 	s.Alg = rapid.SampledFrom(algoSpellings).Draw(t, "alg")
+	// unknown spellings that a table of hashed option words would take for known ones (stored preimages): they mean what any
+	// unknown spelling means
+	switch rapid.IntRange(0, 15).Draw(t, "preimageQ") {
+	case 0:
+		s.Dig = rapid.SampledFrom(spellingsLike("8", "9", "10")).Draw(t, "digPre")
+	case 1:
+		s.Alg = rapid.SampledFrom(spellingsLike("SHA256", "SHA512")).Draw(t, "algPre")
+	}
 	s.HasPer = rapid.Bool().Draw(t, "hasPer")
 	s.Per = rapid.SampledFrom([]uint64{0, 1, 29, 30, 60, 3600, 1 << 32}).Draw(t, "per")
 	s.HasSkew = rapid.Bool().Draw(t, "hasSkew")
